@@ -204,6 +204,8 @@ class Link:
         self.tap = None                 # fn(link, direction, bytes) -> list of bytes|EOF
         self.on_segment = None          # observer fn(link, direction, bytes)
         self.stopped = [False, False]   # black hole per direction
+        self.p_split = 0.0              # a segment arrives in two parts ...
+        self.split_delay = (0.15, 0.35) # ... the second one this much later (range)
 
     def socks(self):
         return self.a, self.b
@@ -223,19 +225,27 @@ class Link:
         else:
             items = (item,)
         for it in items:
-            self._schedule(d, it)
+            if (self.p_split and it is not EOF and it is not RESET and len(it) > 1
+                    and sim.choose_bool(self.p_split)):
+                k = 1 + sim.choose(min(len(it) - 1, 40))
+                sim.fault("segment_split_with_delay")
+                self._schedule(d, it[:k])
+                lo, hi = self.split_delay
+                self._schedule(d, it[k:], extra=lo + (hi - lo) * (sim.choose(8) / 8.0))
+            else:
+                self._schedule(d, it)
 
     def inject(self, d, item):
         """Put bytes (or EOF/RESET) on the wire in direction d (0: a->b)."""
         self._schedule(d, item)
 
-    def _schedule(self, d, item):
+    def _schedule(self, d, item, extra=0.0):
         sim = self.sim
         if self.stopped[d]:
             sim.fault("blackholed")
             return
         dst = self.b if d == 0 else self.a
-        delay = self.latency[d]
+        delay = self.latency[d] + extra
         if self.jitter:
             delay += self.jitter * (sim.choose(8) / 8.0)
         when = max(self.last_delivery[d], sim.now + delay)
